@@ -12,6 +12,7 @@ sizes set through the API, memoised sizes; `allow i` is the border allowance of 
 added for its borders) is not 0 — a stored size of 0 is how the file format says "default".
 -/
 import NumbersModel.Lemmas.Sizes
+import NumbersModel.Lemmas.DocTreeOps
 namespace NumbersModel.Props.C16
 open NumbersModel NumbersModel.Sizes
 
@@ -108,5 +109,47 @@ example : readVal 2 ⟨1, [(0, 73)], 40, [], []⟩ (fun _ => 3) 0 = 37 ∧
     readVal 2 (cycle 2 ⟨1, [(0, 73)], 40, [], []⟩ (fun _ => 3)) (fun _ => 3) 0 = 37 := by decide
 example : (Labels.apply ⟨"T".toList, "S".toList, true, false, none, 1, 1, 0, 5⟩ (.setCaptionEnabled true)).observe.captionEnabled
     = false := by decide
+
+end NumbersModel.Props.C16
+
+
+/-! ## Labels are fields of the reloaded objects (`Model/DocTree.lean`)
+
+`DocTree.labels` is `table_name`, `table_name_enabled`, `caption_enabled`, `caption_text`, `num_header_rows`,
+`num_header_cols`, `table_coordinates` as `_NumbersModel` computes them from the stored messages (the table model, the
+first table info that points at it, the caption object it refers to and that one's text storage). -/
+namespace NumbersModel.Props.C16
+open NumbersModel NumbersModel.Layout NumbersModel.DocTree
+
+/-- **labels after save and reopen**: from any package that holds exactly the store's objects (any order of members and of
+    archives), every table shows the same name, name visibility, caption visibility, caption text, header counts and
+    position; sheet by sheet, in the same order. -/
+theorem labels_after_reload (d : Doc) (hv : Valid d) (ms : List Member) (hp : (flatArchives ms).Perm d.objects) :
+    allLabels (load ms).objects = allLabels d.objects ∧ ∀ tid, labels (load ms).objects tid = labels d.objects tid := by
+  have hn : ((flatArchives ms).map Prod.fst).Nodup := (List.Perm.map Prod.fst hp).nodup_iff.mpr hv.nodup
+  rw [load_objects ms hn]
+  exact ⟨allLabels_perm d.objects _ hp hv.nodup hv.listed' hv.uniq, fun tid => labels_perm d.objects _ hp hv.nodup hv.uniq tid⟩
+
+/-- … of the saved package and every rearrangement of it, after any history -/
+theorem labels_after_reload_history (d0 d : Doc) (ops : List Op) (hv : Valid d0) (hr : run d0 ops = .ok d)
+    (hf : (fileIds d.files).Perm (dictKeys d.objects)) (ms : List Member)
+    (hp : (flatArchives ms).Perm (flatArchives (serialise d))) :
+    allLabels (load ms).objects = allLabels d.objects :=
+  have hv' := run_valid ops hv hr
+  (labels_after_reload d hv' ms (hp.trans (serialise_perm d hv'.nodup hf))).1
+
+/-! non-vacuity: caption set on a table that had a stand-in caption, name hidden, saved, archives reversed, reopened -/
+def exDoc : Doc :=
+  { objects := [(1, .document [5]), (5, .sheet "S".toList [11]), (11, .tableInfo 5 10 12 false 7 9),
+                (10, .tableModel "T".toList true 1 1), (12, .standinCaption)],
+    files := [("Index/Document.iwa".toList, some [1, 5]), ("Index/CalculationEngine.iwa".toList, some [11, 10, 12])],
+    maxId := 1000000 }
+def exOps : List Op := [.setCaption 10 "cap".toList, .setNameEnabled 10 false, .setHdrRows 10 2, .setCaptionEnabled 10 true]
+example : (do let d ← run exDoc exOps; allLabels d.objects) =
+    .ok [[⟨"T".toList, false, true, "cap".toList, 2, 1, 7, 9⟩]] := by decide
+example : (do let d ← run exDoc exOps
+              allLabels (load ((serialise d).map fun (m : Member) => ((m.1, m.2.map List.reverse) : Member)).reverse).objects) =
+    .ok [[⟨"T".toList, false, true, "cap".toList, 2, 1, 7, 9⟩]] := by decide
+example : allLabels exDoc.objects = .ok [[⟨"T".toList, true, false, "Caption".toList, 1, 1, 7, 9⟩]] := by decide
 
 end NumbersModel.Props.C16
